@@ -15,7 +15,7 @@ def run(order, label):
         applied = []
         for nm in order:
             p = os.path.join(VERIF, "twins", nm, "patch.diff")
-            r = subprocess.run(["git", "apply", "--unsafe-paths", "--directory", tmp, p], capture_output=True, text=True, cwd=tmp)
+            r = subprocess.run(["git", "apply", "--include=*/gcmpy/*", "--unsafe-paths", "--directory", tmp, p], capture_output=True, text=True, cwd=tmp)
             if r.returncode == 0:
                 applied.append(nm)
         r = subprocess.run(["/venv/bin/python", "-m", "compileall", "-q", os.path.join(tmp, "gcmpy")], capture_output=True, text=True)
